@@ -79,6 +79,8 @@ func jstr(s string) string {
 type Fwd struct {
 	Kind string // "cctp" | "hyp" | "internal"
 	Tag  string `json:",omitempty"` // display name override
+	// SwapFirst: the payload starts with the harness' ACTION_SWAP test action (instrumented stand only)
+	SwapFirst bool `json:",omitempty"`
 	// cctp
 	Domain uint32
 	MintRecipient, Caller []byte
